@@ -71,7 +71,8 @@ def scenarios(draw, component=None):
         scn["mdp"]["repr"]["actions"] = draw(st.sampled_from(["tuple", "shared_list", "shared_list", "list"]))
     if comp in ("astar", "bfs"):
         g = draw(graph_specs("quick"))
-        g["rep"] = draw(st.sampled_from(["next_state", "det", "dsp"]))
+        g["rep"] = draw(st.sampled_from(["next_state", "det", "dsp", "dict1", "unif1", "unif1"]))
+        g["init_rep"] = draw(st.sampled_from(["initial_state", "det", "dict1", "unif1"]))
         scn["graph"] = g
         P.update(rao=True)
     elif comp in ("bpi", "ga", "pomdp_rollout"):
